@@ -24,6 +24,7 @@ type PropSpec struct {
 	Functions  []string
 	Lemmas     []string
 	Sweep      []string
+	PreSweep   []string
 	Level      string
 	Explain    []string
 	Assume     []string
@@ -61,6 +62,11 @@ func readProp(path string) (*PropSpec, error) {
 			ps.Lemmas = append(ps.Lemmas, strings.Fields(rest)...)
 		case "sweep":
 			ps.Sweep = append(ps.Sweep, strings.Fields(rest)...)
+		case "presweep":
+			// like sweep, but keeps the call-site preconditions instead of the safety obligations: every function of the
+			// package, including ones without a contract (e.g. introduced by a refactoring), must establish the
+			// preconditions of the contracted functions it calls
+			ps.PreSweep = append(ps.PreSweep, strings.Fields(rest)...)
 		case "level":
 			ps.Level = rest
 		case "explain":
@@ -264,6 +270,18 @@ func cmdCheck(args []string) int {
 		obs = append(obs, o...)
 		reports = append(reports, rep)
 	}
+	if os.Getenv("GOVC_LIST_FUNCS") != "" {
+		var ks []string
+		for k := range prog.AllFuncs {
+			if strings.Contains(k, os.Getenv("GOVC_LIST_FUNCS")) {
+				ks = append(ks, k)
+			}
+		}
+		sort.Strings(ks)
+		for _, k := range ks {
+			fmt.Fprintf(os.Stderr, "func %s at %s\n", k, prog.Fset.Position(prog.AllFuncs[k].Pos()))
+		}
+	}
 	// zero-annotation safety sweep
 	sweepFns := 0
 	for _, pkgPath := range ps.Sweep {
@@ -292,6 +310,31 @@ func cmdCheck(args []string) int {
 			}
 			o = so
 			obs = append(obs, o...)
+			reports = append(reports, rep)
+			sweepFns++
+		}
+	}
+	for _, pkgPath := range ps.PreSweep {
+		var keys []string
+		for k, fn := range prog.AllFuncs {
+			if fn.Pkg != nil && fn.Pkg.Pkg.Path() == pkgPath || fn.Parent() != nil && fn.Parent().Pkg != nil && fn.Parent().Pkg.Pkg.Path() == pkgPath {
+				if len(fn.Blocks) > 0 && !seen[k] && fn.Synthetic == "" && prog.Contracts[k] == nil {
+					keys = append(keys, k)
+				}
+			}
+		}
+		sort.Strings(keys)
+		for _, k := range keys {
+			fn := prog.AllFuncs[k]
+			if strings.HasPrefix(fn.Name(), "lemma_") || strings.HasPrefix(fn.Name(), "init") {
+				continue
+			}
+			o, rep := VerifyFunction(prog, fn, nil, true)
+			for _, ob := range o {
+				if ob.Kind == "pre" || ob.Kind == "spawn" {
+					obs = append(obs, ob)
+				}
+			}
 			reports = append(reports, rep)
 			sweepFns++
 		}
